@@ -22,6 +22,7 @@ import (
 	"errors"
 	"fmt"
 	"io"
+	"os"
 	"runtime"
 	"strconv"
 	"strings"
@@ -791,6 +792,7 @@ type c29rc struct {
 }
 
 func (s *c29rc) apply(o *c29rop) bool {
+	o.next = -1
 	switch o.k {
 	case 0:
 		s.sys.tick(o.dt)
@@ -836,7 +838,6 @@ func (s *c29rc) apply(o *c29rop) bool {
 		if atomic.LoadInt32(&th.st) == rsLeaving {
 			atomic.StoreInt32(&th.st, rsIdle) // the worker goroutine has gone
 		}
-		o.next = -1
 		for _, i := range blocked {
 			if atomic.LoadInt32(&s.th[i].st) == rsInR {
 				o.next = i
@@ -1195,6 +1196,9 @@ func c29trapRandom(ctx *verifhlib.Ctx, r *verifhlib.Rng) {
 // ---------------------------------------------------------------------------------------------
 
 func c29driver(ctx *verifhlib.Ctx) {
+	if ctx.Tmp != "" {
+		os.Setenv("TMPDIR", ctx.Tmp) // the CAStore fixture of the Refresher cases creates its directories there
+	}
 	r := verifhlib.NewRng(ctx.Seed)
 	thorough := ctx.Tier == "thorough"
 	c29limSeeds(ctx)
